@@ -257,15 +257,29 @@ Fixpoint insert_env (kv : str * str) (l : list (str * str)) : list (str * str) :
 Definition sort_env (l : list (str * str)) : list (str * str) := fold_right insert_env [] l.
 Definition with_user_env (uenv : list (str * str)) (e : env) : env := fold_left user_env_step (sort_env uenv) e.
 
-(* BuildEnvironment(state, target, tmpDir), non-sandboxed target, no Bazel compatibility *)
-Definition build_env (cfg : config) (t : target) (tmp : str) (caller : env) : env :=
+Definition opt_str_eqb_early := option_eqb str_eqb.
+
+(* ---- sandboxed targets ---- *)
+(* what BuildEnvironment looks at for a sandboxed target:
+     sb_target   target.Sandbox
+     sb_resolve  runtime.GOOS == "linux" && !strings.HasPrefix(RepoRoot, "/tmp/")     (resolveOut; dir is never ".")
+     sb_dirs     [sandbox] dir *)
+Record sbx := { sb_target : bool; sb_resolve : bool; sb_dirs : list str }.
+Definition no_sbx : sbx := {| sb_target := false; sb_resolve := false; sb_dirs := [] |}.
+Definition SANDBOX_DIR := s "/tmp/plz_sandbox".          (* core.SandboxDir *)
+Definition is_nil {A} (l : list A) : bool := match l with [] => true | _ => false end.
+
+(* BuildEnvironment(state, target, tmpDir), no Bazel compatibility *)
+Definition build_env_sb (sx : sbx) (cfg : config) (t : target) (tmp : str) (caller : env) : env :=
   let e := target_env cfg t caller in
   let e := set (s "TMP_DIR") tmp e in
   let e := set (s "TMPDIR") tmp e in
   let e := set (s "OUTS") (join (s " ") (t_outs t)) e in
   let e := set (s "HOME") tmp e in
   let e := set (s "PYTHONHASHSEED") (s "42") e in
-  let e := match t_outs t with [o] => set (s "OUT") (tmp ++ s "/" ++ o) e | _ => e end in
+  let e := match t_outs t with
+           | [o] => set (s "OUT") ((if (sb_target sx && sb_resolve sx)%bool then SANDBOX_DIR else tmp) ++ s "/" ++ o) e
+           | _ => e end in
   let e := if t_src_list_files t then e else
              let e := set (s "SRCS") (join (s " ") (t_srcs t)) e in
              let e := match t_srcs t with [x] => set (s "SRC") x e | _ => e end in
@@ -275,7 +289,65 @@ Definition build_env (cfg : config) (t : target) (tmp : str) (caller : env) : en
   let e := match t_tools t with [x] => set (s "TOOL") x e | _ => e end in
   let e := match t_secrets t with [] => e | l => set (s "SECRETS") (secrets_value caller l) e end in
   let e := fold_left (fun a kv => set (s "SECRETS_" ++ to_upper (fst kv)) (secrets_value caller (snd kv)) a) (t_named_secrets t) e in
+  let e := if (sb_target sx && negb (is_nil (sb_dirs sx)))%bool then set (s "SANDBOX_DIRS") (join (s ",") (sb_dirs sx)) e else e in
   with_user_env (t_env t) e.
+
+(* the non-sandboxed target *)
+Definition build_env (cfg : config) (t : target) (tmp : str) (caller : env) : env := build_env_sb no_sbx cfg t tmp caller.
+
+(* ---- from the environment map to the process the action runs in ----
+   src/process/exec_linux.go ExecCommand, src/process/process.go ExecWithTimeout, os/exec, src/sandbox/sandbox_linux.go.
+   exec.Cmd.Env is a list of name=value entries (here: pairs); duplicates are allowed, the LAST one wins (os/exec
+   dedupEnv); a nil/empty list means "inherit the parent's environment" (os/exec Cmd.environ). *)
+Inductive sandbox_mode :=
+| SbNone                 (* sandbox == NoSandbox *)
+| SbBuiltin              (* e.usePleaseSandbox: re-exec into `plz sandbox` *)
+| SbTool.                (* an external [sandbox] tool *)
+
+Definition bool01 (b : bool) : str := if b then s "1" else s "0".     (* boolToString *)
+
+(* cmd.Env as ExecCommand leaves it. net/mount = sandbox.Network / sandbox.Mount *)
+Definition exec_preset (mode : sandbox_mode) (uid : str) (net mount : bool) : env :=
+  match mode with
+  | SbNone => []
+  | SbBuiltin => [(s "SANDBOX_UID", uid); (s "SHARE_NETWORK", bool01 (negb net)); (s "SHARE_MOUNT", bool01 (negb mount))]
+  | SbTool => [(s "SHARE_NETWORK", bool01 (negb net)); (s "SHARE_MOUNT", bool01 (negb mount))]
+  end.
+(* ExecWithTimeout: cmd.Env = append(cmd.Env, env...) *)
+Definition cmd_env (mode : sandbox_mode) (uid : str) (net mount : bool) (e : env) : env := exec_preset mode uid net mount ++ e.
+
+(* os/exec: the environment of the started process *)
+Definition dedup (l : env) : env := add [] l.
+Definition child_env (caller : env) (l : env) : env := match l with [] => caller | _ => dedup l end.
+
+(* strings.ReplaceAll(x, from, to), from non-empty *)
+Fixpoint replace_fuel (fuel : nat) (from to x : str) : str :=
+  match fuel with
+  | O => x
+  | S f =>
+      match x with
+      | [] => []
+      | c :: r => if has_prefix from x then to ++ replace_fuel f from to (skipn (length from) x)
+                  else c :: replace_fuel f from to r
+      end
+  end.
+Definition replace_all (from to x : str) : str := match from with [] => x | _ => replace_fuel (length x) from to x end.
+
+(* sandbox.Sandbox (`plz sandbox cmd args...`): env := os.Environ(); when the mount namespace is unshared
+   (SHARE_MOUNT != "1") $TMP_DIR must be set and not under /tmp, and rewriteEnvVars replaces it by /tmp/plz_sandbox in
+   every value; the command is exec'd with env.  None = plz sandbox refuses to run the command. *)
+Definition sandbox_process (e : env) : option env :=
+  if opt_str_eqb_early (lookup (s "SHARE_MOUNT") e) (Some (s "1")) then Some e
+  else match lookup (s "TMP_DIR") e with
+       | None | Some [] => None
+       | Some d => if has_prefix (s "/tmp") d then None
+                   else Some (map (fun kv => (fst kv, replace_all d SANDBOX_DIR (snd kv))) e)
+       end.
+
+(* the environment the action's process gets; for an external tool: the environment of the tool *)
+Definition action_env (mode : sandbox_mode) (uid : str) (net mount : bool) (caller : env) (e : env) : option env :=
+  let ce := child_env caller (cmd_env mode uid net mount e) in
+  match mode with SbBuiltin => sandbox_process ce | _ => Some ce end.
 
 (* ---- what is hashed ---- *)
 (* ruleHash: if target.PassEnv != nil { for each name: Write(name); Write("="); Write(os.Getenv(name)) } *)
@@ -335,7 +407,20 @@ Inductive case :=
 (* two callers: are the bytes written by ruleHash's pass_env fragment / Configuration.Hash's input equal?
    observed through equality of the real hashes *)
 | CRuleHashEq (t : target) (c1 c2 : env) (same : bool)
-| CConfigHashEq (cfg : config) (c1 c2 : env) (same : bool).
+| CConfigHashEq (cfg : config) (c1 c2 : env) (same : bool)
+(* the `env` dump of a (possibly sandboxed) build action run by the real plz: BuildEnvironment, ExecWithTimeout,
+   ExecCommand, os/exec and - built-in sandbox - `plz sandbox`; obs = None: the command was refused *)
+| CActionEnv (sx : sbx) (cfg : config) (t : target) (tmp : str) (caller : env)
+             (mode : sandbox_mode) (uid : str) (net mount : bool) (obs : option env)
+(* process.Executor.ExecWithTimeout on an arbitrary name=value list (duplicates, empty list) *)
+| CExecEnv (mode : sandbox_mode) (uid : str) (net mount : bool) (caller e : env) (obs : option env).
+
+Definition opt_env_eqb (m obs : option env) : bool :=
+  match m, obs with
+  | Some a, Some b => env_eqb a b
+  | None, None => true
+  | _, _ => false
+  end.
 
 Definition check (c : case) : bool :=
   match c with
@@ -347,4 +432,7 @@ Definition check (c : case) : bool :=
       str_eqb (os_expand (fun k => match lookup k e with Some v => v | None => ch "$" :: k end) x) out
   | CRuleHashEq t c1 c2 same => Bool.eqb (str_eqb (pass_env_stream t c1) (pass_env_stream t c2)) same
   | CConfigHashEq cfg c1 c2 same => Bool.eqb (str_eqb (config_stream cfg c1) (config_stream cfg c2)) same
+  | CActionEnv sx cfg t tmp caller mode uid net mount obs =>
+      opt_env_eqb (action_env mode uid net mount caller (build_env_sb sx cfg t tmp caller)) obs
+  | CExecEnv mode uid net mount caller e obs => opt_env_eqb (action_env mode uid net mount caller e) obs
   end.
